@@ -15,7 +15,9 @@ pub struct C13;
 
 pub enum Case {
     /// strings read by handlers == one-shot decode of the bytes at the reported range
-    Decode { enc: &'static Encoding, input: Vec<u8>, cuts: Vec<usize> },
+    /// `sparse`: a generated observer set instead of "every observer" (text handlers scoped to
+    /// elements: the decoder is started and flushed at scope boundaries, the parser changes modes)
+    Decode { enc: &'static Encoding, input: Vec<u8>, cuts: Vec<usize>, sparse: Option<Cfg> },
     /// inserted content == one-shot encode (numeric references for unmappable characters)
     Insert { enc: &'static Encoding, input: Vec<u8>, cuts: Vec<usize>, strings: Vec<(String, CT)> },
     /// <meta charset> switches the encoding once, after the tag
@@ -79,7 +81,14 @@ pub fn decode(tape: &[u16]) -> Case {
                 }
             }
             let cuts = spec.resolve(input.len());
-            Case::Decode { enc, input, cuts }
+            let sparse = if t.chance(1, 3) {
+                let mut cfg = Cfg { encoding: enc, ..Cfg::default() };
+                crate::gens::handlers::observers(&mut t, &mut cfg, 3, 1);
+                Some(cfg)
+            } else {
+                None
+            };
+            Case::Decode { enc, input, cuts, sparse }
         }
         1 => {
             let n = t.range(1, 3);
@@ -113,7 +122,7 @@ pub fn decode(tape: &[u16]) -> Case {
             let late_meta = if t.chance(1, 3) { Some(ENCODINGS[t.below(ENCODINGS.len())].name().to_string()) } else { None };
             let k = t.range(0, 4);
             let cuts_frac = (0..k).map(|_| t.frac()).collect();
-            Case::Switch { from: enc, to_label, part1, part2, late_meta, cuts_frac, insert: t.pick(INSERT_STRS).to_string(), handlers: t.below(6) as u8 }
+            Case::Switch { from: enc, to_label, part1, part2, late_meta, cuts_frac, insert: t.pick(INSERT_STRS).to_string(), handlers: t.below(8) as u8 }
         }
     }
 }
@@ -138,8 +147,9 @@ fn all_obs(enc: &'static Encoding) -> Cfg {
     cfg
 }
 
-fn check_decode(enc: &'static Encoding, input: &[u8], cuts: &[usize], st: &mut Stats) -> PResult {
-    let r = run(&split(input, cuts), &all_obs(enc));
+fn check_decode(enc: &'static Encoding, input: &[u8], cuts: &[usize], sparse: Option<&Cfg>, st: &mut Stats) -> PResult {
+    let r = run(&split(input, cuts), &sparse.cloned().unwrap_or_else(|| all_obs(enc)));
+    st.label_if(sparse.is_some(), "decode_with_sparse_handlers");
     st.eval();
     if let Some(p) = r.panicked() {
         fail!("C13: panic: {p}");
@@ -282,8 +292,23 @@ fn check_switch(from: &'static Encoding, to_label: &str, part1: &str, part2: &st
         2 => (Cfg { encoding: from, docs: vec![DocSpec { end: true, ..Default::default() }], ..Cfg::default() }, "document_end_only"),
         3 => (Cfg { encoding: from, docs: vec![DocSpec { end: true, ..Default::default() }], sels: vec![SelSpec { sel: "p".into(), el: true, text: true, ..Default::default() }], ..Cfg::default() }, "p_element_and_text"),
         4 => (Cfg { encoding: from, docs: vec![DocSpec { end: true, ..Default::default() }], sels: vec![SelSpec { sel: "meta".into(), el: true, ..Default::default() }], ..Cfg::default() }, "meta_element_only"),
-        _ => (Cfg { encoding: from, docs: vec![DocSpec { end: true, ..Default::default() }], sels: vec![SelSpec { sel: "b[title]".into(), text: true, ..Default::default() }], ..Cfg::default() }, "b_text_only"),
+        5 => (Cfg { encoding: from, docs: vec![DocSpec { end: true, ..Default::default() }], sels: vec![SelSpec { sel: "b[title]".into(), text: true, ..Default::default() }], ..Cfg::default() }, "b_text_only"),
+        // a user handler edits the declaring tag: the declaration in the INPUT still decides
+        6 => (
+            Cfg { encoding: from, docs: vec![DocSpec { end: true, text: true, comments: true, ..Default::default() }], sels: vec![SelSpec { sel: "meta".into(), ops: vec![ScriptOp { kind: Kind::Element, nth: None, every_chunk: false, op: Op::RemoveAttr("charset".into()) }], ..Default::default() }], ..Cfg::default() },
+            "meta_handler_strips_charset",
+        ),
+        _ => (
+            Cfg {
+                encoding: from,
+                docs: vec![DocSpec { end: true, text: true, comments: true, ..Default::default() }],
+                sels: vec![SelSpec { sel: "meta".into(), ops: vec![ScriptOp { kind: Kind::Element, nth: None, every_chunk: false, op: Op::SetAttr("charset".into(), if eff.name() == "UTF-8" { "windows-1252".into() } else { "utf-8".into() }) }], ..Default::default() }],
+                ..Cfg::default()
+            },
+            "meta_handler_rewrites_charset",
+        ),
     };
+    let edits_meta = handlers >= 6;
     cfg.adjust_charset = true;
     cfg.docs[0].ops.push(ScriptOp { kind: Kind::DocEnd, nth: None, every_chunk: false, op: Op::Append(insert.to_string(), CT::Html) });
     let r = run(&split(&input, &cuts), &cfg);
@@ -299,7 +324,12 @@ fn check_switch(from: &'static Encoding, to_label: &str, part1: &str, part2: &st
         ensure!(encs.len() == 2 && encs[1].1 == eff.name(), "C13: expected exactly one switch to {} after <meta charset={to_label}>, sink saw {encs:?}", eff.name());
         // notified right after the bytes of the declaring tag and before any later byte
         let before: Vec<u8> = concat_sink(&r.sink[..encs[1].0]);
-        ensure!(before == input[..meta_end], "C13: set_encoding({}) was delivered after {} output bytes, but the declaring <meta> tag ends at byte {meta_end}", eff.name(), before.len());
+        if edits_meta {
+            // the tag is re-serialised by the user handler: everything before it is unchanged, and the notification precedes every byte that follows the tag
+            ensure!(before.len() >= meta_end.saturating_sub(meta.len() + 24) && before.ends_with(b">") && r.out[before.len()..].starts_with(&input[meta_end..(meta_end + 1).min(input.len())]), "C13: set_encoding({}) was not delivered right after the (edited) declaring <meta> tag: {} bytes emitted before it, output there {:?}", eff.name(), before.len(), show(&r.out[before.len().saturating_sub(12)..(before.len() + 8).min(r.out.len())]));
+        } else {
+            ensure!(before == input[..meta_end], "C13: set_encoding({}) was delivered after {} output bytes, but the declaring <meta> tag ends at byte {meta_end}", eff.name(), before.len());
+        }
     } else {
         ensure!(encs.len() == 1, "C13: encoding switched although the declared charset {to_label:?} is unsupported or unchanged: {encs:?}");
     }
@@ -344,8 +374,8 @@ impl Prop for C13 {
             finding: Some("C13-bom-sniffing-in-names-values"),
             what: "attribute names/values and comment text starting with FE FF / FF FE / EF BB BF are decoded in the document encoding, without BOM sniffing",
             run: Box::new(|st| {
-                check_decode(encoding_rs::UTF_8, b"<a \xfe\xff/ ><b t=\"\xef\xbb\xbfx\"><!--\xef\xbb\xbfc-->", &[], st)?;
-                check_decode(encoding_rs::WINDOWS_1252, b"<a t=\xff\xfeab><!--\xfe\xffcd-->", &[], st)
+                check_decode(encoding_rs::UTF_8, b"<a \xfe\xff/ ><b t=\"\xef\xbb\xbfx\"><!--\xef\xbb\xbfc-->", &[], None, st)?;
+                check_decode(encoding_rs::WINDOWS_1252, b"<a t=\xff\xfeab><!--\xfe\xffcd-->", &[], None, st)
             }),
         }, FixedCase {
             name: "ascii-compatibility-gate",
@@ -364,7 +394,7 @@ impl Prop for C13 {
         }]
     }
     fn rule(&self) -> String {
-        "case over 36 encodings, three kinds. decode: soup in the encoding (incl. characters with ASCII trail bytes), optional 1000-3100-byte multi-byte text run, optional injected malformed bytes, schedule; every text node (chunks concatenated), comment text, tag name, attribute name and value read by handlers == encoding_rs ONE-SHOT decode of the bytes at the reported range. insert: document-end/element insertions of strings with mappable and unmappable characters in both content types == one-shot encode (numeric references), streaming insertion in two pieces == single insertion. switch: text in encoding A + <meta charset=B> + text in B (+ optional later meta), under five handler sets (all observers; document-end handler only; a `p` element+text handler; a `meta` element handler only; a `b[title]` text handler only - the parser may or may not stay in lexer mode after the tag): exactly one set_encoding(B) delivered right after the declaring tag's bytes, later strings decoded and later insertions encoded in B, none for unsupported / non-ASCII-compatible / identical labels. non-trivial = a cut inside a multi-byte character, a text node > 1024 bytes, an unmappable insertion or an actual switch".into()
+        "case over 36 encodings, three kinds. decode (2/3 with every observer registered, 1/3 with a generated sparse observer set whose text handlers are scoped to elements): soup in the encoding (incl. characters with ASCII trail bytes), optional 1000-3100-byte multi-byte text run, optional injected malformed bytes, schedule; every text node (chunks concatenated), comment text, tag name, attribute name and value read by handlers == encoding_rs ONE-SHOT decode of the bytes at the reported range. insert: document-end/element insertions of strings with mappable and unmappable characters in both content types == one-shot encode (numeric references), streaming insertion in two pieces == single insertion. switch: text in encoding A + <meta charset=B> + text in B (+ optional later meta), under five handler sets (all observers; document-end handler only; a `p` element+text handler; a `meta` element handler only; a `b[title]` text handler only - the parser may or may not stay in lexer mode after the tag; and a `meta` handler that strips or rewrites the charset attribute - the declaration in the input still decides): exactly one set_encoding(B) delivered right after the declaring tag's bytes, later strings decoded and later insertions encoded in B, none for unsupported / non-ASCII-compatible / identical labels. non-trivial = a cut inside a multi-byte character, a text node > 1024 bytes, an unmappable insertion or an actual switch".into()
     }
     fn assumptions(&self) -> Vec<String> {
         vec!["encoding_rs one-shot decode_without_bom_handling / encode are the codec oracle (the implementation uses the streaming API in 1 KiB pieces)".into()]
@@ -377,14 +407,14 @@ impl Prop for C13 {
     }
     fn run(&self, tape: &[u16], st: &mut Stats) -> PResult {
         match decode(tape) {
-            Case::Decode { enc, input, cuts } => check_decode(enc, &input, &cuts, st),
+            Case::Decode { enc, input, cuts, sparse } => check_decode(enc, &input, &cuts, sparse.as_ref(), st),
             Case::Insert { enc, input, cuts, strings } => check_insert(enc, &input, &cuts, &strings, st),
             Case::Switch { from, to_label, part1, part2, late_meta, cuts_frac, insert, handlers } => check_switch(from, &to_label, &part1, &part2, &late_meta, &cuts_frac, &insert, handlers, st),
         }
     }
     fn describe(&self, tape: &[u16]) -> Value {
         match decode(tape) {
-            Case::Decode { enc, input, cuts } => json!({"kind": "decode", "encoding": enc.name(), "input": show(&input[..input.len().min(300)]), "input_bytes": input, "cuts": cuts}),
+            Case::Decode { enc, input, cuts, sparse } => json!({"kind": "decode", "encoding": enc.name(), "input": show(&input[..input.len().min(300)]), "input_bytes": input, "cuts": cuts, "sparse_handlers": sparse.map(|c| c.to_json())}),
             Case::Insert { enc, input, cuts, strings } => json!({"kind": "insert", "encoding": enc.name(), "input": show(&input), "cuts": cuts, "strings": format!("{strings:?}")}),
             Case::Switch { from, to_label, part1, part2, late_meta, cuts_frac, insert, handlers } => json!({"kind": "switch", "from": from.name(), "to": to_label, "part1": part1, "part2": part2, "late_meta": late_meta, "cuts_frac": cuts_frac, "insert": insert, "handlers": handlers}),
         }
